@@ -147,21 +147,41 @@ def r11a(ctx, P):
                     if d["k"] == "assign" and d["rv"]["k"] == "discr" and "field" in place_fields(d["rv"]["place"]) + \
                             [x for s in slh.sources({"cp": d["rv"]["place"]}) if s[0] == "field" for x in s[2]]:
                         sw = (b, t)
+        in_hash = set()          # locals feeding some Hasher::update data argument
+        name_variants = set()    # variants whose payload feeds some Hasher::update data argument
+        delegated = set()
+        for ub, ut in upd:
+            in_hash |= slh.locals(ut["args"][1])
+            for x in slh.sources(ut["args"][1]):
+                if x[0] == "field":
+                    for e in x[3]["p"]:
+                        if isinstance(e, dict) and e.get("downcast") in names:
+                            name_variants.add(e["downcast"])
+                if x[0] == "call" and callee_of(x[2]) in P.fns and P.fns[callee_of(x[2])].crate == "searchlite_core":
+                    delegated.add(callee_of(x[2]))
         if sw:
             b, t = sw
             for v, tg in zip(t["values"], t["targets"]):
                 region = ch.dominated_region(tg)
+                cs = set()
                 for rb in region:
                     for s in ch.blocks[rb]["stmts"]:
-                        if s["k"] == "assign" and s["dst"]["p"] and s["rv"]["k"] == "use" and op_const(s["rv"]["a"]) is not None and \
-                                "[u8; 1]" in ch.local_ty(s["dst"]["l"]):
-                            kinds[names[v]] = op_const(s["rv"]["a"]).get("int")
-                    tt = ch.blocks[rb]["term"]
-                    if tt["k"] == "call" and callee_of(tt) == "crc32fast::Hasher::update":
-                        for x in slh.sources(tt["args"][1]):
-                            if x[0] == "field" and any(isinstance(e, dict) and e.get("downcast") == names[v] for e in x[3]["p"]):
-                                named_ok.add(names[v])
+                        if s["k"] != "assign" or s["dst"]["l"] not in in_hash:
+                            continue
+                        ops = [s["rv"]["a"]] if s["rv"]["k"] in ("use", "cast") else (s["rv"]["ops"] if s["rv"]["k"] == "agg" else [])
+                        for o in ops:
+                            c = op_const(o) if isinstance(o, dict) else None
+                            if c is not None and c.get("int") is not None:
+                                cs.add(c.get("int"))
+                if cs:
+                    kinds[names[v]] = tuple(sorted(cs))
+            named_ok = name_variants
         kinds_ok = len(kinds) == len(names) and len(set(kinds.values())) == len(names)
+        if not sw and delegated:
+            # the kind/name bytes come from a helper: shape not analysed here, distinctness not decided (no alarm)
+            kinds_ok = True
+            named_ok = set(with_name)
+            ctx.assumptions.append("compute_hash delegates the kind/name bytes to %s: their distinctness is not decided" % sorted(delegated))
         ctx.ob(rid, "%s:compute_hash:kind" % rid, kinds_ok, "each SortField variant hashes a distinct kind byte %s" % kinds if kinds_ok else
                "compute_hash does not feed a distinct kind byte per SortField variant (%s)" % kinds, "%s:%s" % (ch.file, ch.line))
         ctx.ob(rid, "%s:compute_hash:name" % rid, set(with_name) <= named_ok,
@@ -181,7 +201,36 @@ def r11a(ctx, P):
                             for x in slh.sources(ta["on"]):
                                 if x[0] == "discr" and "order" in place_fields(x[3]):
                                     order_ok = True
-        ctx.ob(rid, "%s:compute_hash:order" % rid, order_ok, "the sort order of every field is hashed" if order_ok else
+        # ... and for EVERY field: the update fed by the order must not be controlled by a test on the field's kind
+        # (directly the match on `field.field`, or any value derived from it)
+        bad_ctl = None
+        if order_ok:
+            every = False
+            for b, t in upd:
+                dep_on_order = any(x[0] == "discr" and "order" in place_fields(x[3]) for x in slh.sources(t["args"][1]))
+                for l in _agg_elem_locals(ch, slh, t["args"][1]):
+                    for d in ch.defs().get(l, []):
+                        for (a, succ) in ch.control_deps_transitive(d["b"]):
+                            ta = ch.blocks[a]["term"]
+                            if ta["k"] == "switch" and any(x[0] == "discr" and "order" in place_fields(x[3]) for x in slh.sources(ta["on"])):
+                                dep_on_order = True
+                if not dep_on_order:
+                    continue
+                ctl = None
+                for (a, s_) in ch.control_deps_transitive(b):
+                    ta = ch.blocks[a]["term"]
+                    if ta["k"] != "switch" or any("ForLoop" in m for m in (ta.get("macros") or [])):
+                        continue
+                    if any(x[0] in ("field", "discr") and "field" in place_fields(x[3]) for x in slh.sources(ta["on"])):
+                        ctl = Site(ch, a)
+                if ctl is None:
+                    every = True
+                else:
+                    bad_ctl = ctl
+            order_ok = every
+        ctx.ob(rid, "%s:compute_hash:order" % rid, order_ok, "the sort order of every field (of every kind) is hashed" if order_ok else
+               ("compute_hash feeds the sort order into the hash only for some field kinds (controlled by the test at %s): a cursor "
+                "from the same sort with the other order is accepted for the remaining kinds" % bad_ctl.loc()) if bad_ctl else
                "compute_hash does not feed the sort order into the hash: a cursor from the same fields in the other order is accepted",
                "%s:%s" % (ch.file, ch.line))
 
